@@ -213,7 +213,21 @@ def check(case) -> list[Fail]:
                 except Exception as e:  # noqa: BLE001
                     e2 = e
                     break
-            if coms:
+            if len(s) > 2 and e2 is None:
+                # one more command naming an index that is not tracked: extend adds the commands before it, then
+                # raises IndexError; the indices rebound by those commands stay rebound
+                holes = [i for i, w in enumerate(table) if w is None]
+                bad = holes[s[2] % len(holes)] if holes and s[2] % 2 else len(table) + s[2]
+                try:
+                    t.extend(*coms, mk_op("noop")(bad))
+                    fails.append(Fail("extend", "untracked-index-accepted", f"index {bad} of {table}"))
+                    return fails
+                except IndexError:
+                    pass
+                except Exception as e:  # noqa: BLE001
+                    fails.append(Fail("extend", "untracked-index-wrong-error", f"{type(e).__name__}: {e}"[:200]))
+                    return fails
+            elif coms:
                 try:
                     ns = t.extend(*coms)
                 except Exception as e:  # noqa: BLE001
@@ -304,6 +318,7 @@ STEP = weighted(
     (6, com().flatmap(lambda c: store.META.map(lambda m: ["add", c[0], c[1], m]))),
     (1, st.tuples(st.just("readd"), SEL).map(list)),
     (1, st.lists(com(), min_size=1, max_size=3).map(lambda cs: ["extend", cs])),
+    (1, st.tuples(st.lists(com(), min_size=1, max_size=3), st.integers(0, 5)).map(lambda t: ["extend", t[0], t[1]])),
 )
 END = st.one_of(st.just(["set_tracked_outputs"]), st.lists(ARG, max_size=4).map(lambda a: ["set_indexed_outputs", a]))
 
